@@ -4,6 +4,9 @@ import DendroModel.Theory.C02Fuel
 import DendroModel.Theory.C02List
 import DendroModel.Theory.C02PFuel
 import DendroModel.Theory.C02Nexus
+import DendroModel.Theory.C02NexusTr
+import DendroModel.Theory.C02NexusDoc
+import DendroModel.Theory.C02Nexml
 /-! C02 — property theorems about the model of `Model/C02.lean` (the definitions `drv_c02` executes).
 
 Every `theorem` directly inside `namespace DendroModel.C02` of this file is an obligation; helper lemmas live in
@@ -16,11 +19,14 @@ Shape of the argument for Newick (clauses a, b of the design):
   Case folding is a parameter (`ROpts.cf`): the theorems hold for every folding, the driver is handed `str.lower`.
 `newick_list_roundtrip(_trees)`: several statements in one text, read into a pre-filled namespace.
 `weight_roundtrip`, `newick_roundtrip_tree_weighted`: the `[&W w]` comment incl. fractions.
-`nexus_statements_roundtrip_partial`, `nexus_translate_roundtrip_partial`, `resolve_key`: the TREE statements of a NEXUS
-TREES block under the NEXUS symbol mapper (label before number; TRANSLATE token before label).
-`reader_fuel_suffices`, `tokenizer_fuel_suffices`: the fuel of every loop of the reader model is enough on every input.
-Not proved here (correspondence and oracle only): the NEXUS block grammar around the statements (BEGIN TREES, TRANSLATE
-statement text, `TREE name =`, TAXA block), NeXML, float ↔ text. -/
+`nexus_statements_roundtrip_partial`, `nexus_translate_roundtrip_partial`, `resolve_key`, `nexus_translate_roundtrip`: the TREE
+statements of a NEXUS TREES block under the NEXUS symbol mapper (label before number; TRANSLATE token before label).
+`taxlabels_tokens`: the TAXLABELS list.  `nexus_trees_roundtrip`, `nexus_trees_translate_roundtrip`: the TREES block text
+(`BEGIN TREES;`, TRANSLATE statement, `TREE name = …`, `END;`) read by the block reader.  `nexus_document_roundtrip`,
+`nexus_document_translate_roundtrip`: the WHOLE document (`#NEXUS`, TAXA block with DIMENSIONS / TAXLABELS, TREES block) written
+by the model writer and read by the model document reader gives the namespace (labels and order) and the trees back.
+`reader_fuel_suffices`, `tokenizer_fuel_suffices`: the fuel of every loop of the Newick reader model is enough on every input.
+Not proved here (correspondence and oracle only): NeXML, float ↔ text, TITLE / LINK lines (several namespaces in one file). -/
 namespace DendroModel.C02
 open DendroModel.Tables
 
@@ -762,72 +768,272 @@ theorem nexus_trees_roundtrip (o : WOpts) (ro : ROpts) (hc : Consistent o.ps o.u
     (hok : ∀ x ∈ trees, (x.1 ≠ [] ∧ ∀ c ∈ x.1, labelChar c = true) ∧ OkT o x.2.2.2 ∧ WritesSomething o x.2.2.2 ∧
       (∀ w, x.2.2.1 = some w → WeightOk w) ∧ (taxaOf ro (toRT o x.2.2.2)).Nodup ∧ ∀ z ∈ taxaOf ro (toRT o x.2.2.2), z ∈ ns)
     (hU : CaseCons ro.cf ns) :
-    nexusBlock ro ns (treesBlockText o [] trees) = some (trees.map (namedResult o ro), ⟨[], ns, true⟩) := by
-  -- tokens of the block
-  obtain ⟨gs, hgs, hlines⟩ := lines_tokens o ro.pu hc trees
-    (fun x hx => ⟨(hok x hx).1, (hok x hx).2.1, (hok x hx).2.2.1, (hok x hx).2.2.2.1⟩) ['\n'] (by decide)
+    nexusBlock ro ns (treesBlockText o [] trees) = some (trees.map (namedResult o ro), ⟨[], ns, true⟩) :=
+  nexusBlock_of_run ro ns _ _ _ (block_run_plain o ro hc ns trees hok hU)
+
+/-! ### the NEXUS TREES block with a TRANSLATE statement, text to trees -/
+
+namespace Aux
+theorem kw_Translate : PlainWord ['T', 'r', 'a', 'n', 's', 'l', 'a', 't', 'e'] := ⟨by simp, by decide, by intro c cs h; cases h; decide⟩
+
+theorem tokenOf_ne_nil (tm : List (Str × Str)) (hk : ∀ p ∈ tm, p.1 ≠ []) (s : Str) (hs : s ∈ tm.map (·.2)) : tokenOf tm s ≠ [] := by
+  unfold tokenOf
+  cases hf : tm.find? (fun p => p.2 == s) with
+  | none =>
+    rw [List.find?_eq_none] at hf
+    obtain ⟨p, hp, rfl⟩ := List.mem_map.mp hs
+    exact absurd (by simp) (hf p hp)
+  | some p => exact hk p (List.mem_of_find?_eq_some hf)
+
+/-- the tokens of a TREES block with a TRANSLATE statement (after any white space) -/
+theorem block_tokens_translate (o : WOpts) (pu : Bool) (hc : Consistent o.ps o.uu pu) (tm : List (Str × Str)) (htm : tm ≠ [])
+    (hent : ∀ p ∈ tm, PlainWord p.1 ∧ p.2 ≠ [] ∧ ∀ c ∈ p.2, labelChar c = true)
+    (trees : List (Str × WT)) (hok : ∀ x ∈ trees, (x.1 ≠ [] ∧ ∀ c ∈ x.1, labelChar c = true) ∧ OkX o x.2)
+    (ws : Str) (hws : ∀ c ∈ ws, isUncap c = true) :
+    ∃ es gs, es.map (·.text) = entryTexts tm ∧ LineGroups o trees gs ∧
+      tokenizeAll pu (ws ++ treesBlockText o tm trees) =
+        ⟨[⟨['B', 'E', 'G', 'I', 'N'], false, []⟩, ⟨['T', 'R', 'E', 'E', 'S'], false, []⟩, ⟨[';'], false, []⟩,
+          ⟨['T', 'r', 'a', 'n', 's', 'l', 'a', 't', 'e'], false, []⟩] ++ es ++ [⟨[';'], false, []⟩] ++
+          (gs.flatten ++ [⟨['E', 'N', 'D'], false, []⟩, ⟨[';'], false, []⟩]), true, false⟩ := by
   let R := treeLines o trees ++ endBlock
-  have etext : treesBlockText o [] trees = [] ++ (['B', 'E', 'G', 'I', 'N'] ++ (' ' :: ([] ++ (['T', 'R', 'E', 'E', 'S'] ++ (';' :: (['\n'] ++ R)))))) := by
-    simp [treesBlockText, translateText, beginTrees, R]
-  have h1 : nextTok ro.pu ([] ++ (['B', 'E', 'G', 'I', 'N'] ++ (' ' :: ([] ++ (['T', 'R', 'E', 'E', 'S'] ++ (';' :: (['\n'] ++ R))))))) =
-      .tok ['B', 'E', 'G', 'I', 'N'] false [] ([] ++ (['T', 'R', 'E', 'E', 'S'] ++ (';' :: (['\n'] ++ R)))) := by
-    unfold nextTok
-    rw [next_word ro.pu _ [] _ _ [] (by simp) kw_BEGIN (stop_space _).1, (stop_space _).2]
-  have h2 : nextTok ro.pu ([] ++ (['T', 'R', 'E', 'E', 'S'] ++ (';' :: (['\n'] ++ R)))) =
-      .tok ['T', 'R', 'E', 'E', 'S'] false [] (';' :: (['\n'] ++ R)) := by
-    unfold nextTok
-    rw [next_word ro.pu _ [] _ _ [] (by simp) kw_TREES (stop_semi _).1, (stop_semi _).2]
-  have h3 : nextTok ro.pu (';' :: (['\n'] ++ R)) = .tok [';'] false [] (['\n'] ++ R) := by
-    unfold nextTok
-    exact next_punct ro.pu _ ';' (by decide) _ []
-  have htoks : tokenizeAll ro.pu (treesBlockText o [] trees) =
-      ⟨⟨['B', 'E', 'G', 'I', 'N'], false, []⟩ :: ⟨['T', 'R', 'E', 'E', 'S'], false, []⟩ :: ⟨[';'], false, []⟩ ::
-        (gs.flatten ++ [⟨['E', 'N', 'D'], false, []⟩, ⟨[';'], false, []⟩]), true, false⟩ := by
-    rw [etext, tokenizeAll_step _ _ _ _ _ _ h1, tokenizeAll_step _ _ _ _ _ _ h2, tokenizeAll_step _ _ _ _ _ _ h3, hlines]
-  -- the mapper is left unchanged by every statement
-  have hassign : ∀ x ∈ trees, isBlank (toRT o x.2.2.2) = false ∧
-      ∃ seen, assign ro (toRT o x.2.2.2) ⟨⟨[], ns, true⟩, []⟩ = some (decode ro (toRT o x.2.2.2), ⟨⟨[], ns, true⟩, seen⟩) := by
+  let T := indent8 ++ ([' ', ' ', ' ', ' ', ' '] ++ (';' :: (['\n'] ++ R)))
+  obtain ⟨gs, hgs, hlines⟩ := lines_tokens o pu hc trees hok ['\n'] (by decide)
+  obtain ⟨es, ws', hws', hes, hpre⟩ := entries_tokens o pu hc T tm htm hent [] (by simp)
+  have etext : ws ++ treesBlockText o tm trees =
+      ws ++ (['B', 'E', 'G', 'I', 'N'] ++ (' ' :: ([] ++ (['T', 'R', 'E', 'E', 'S'] ++ (';' :: (('\n' :: indent8) ++
+        (['T', 'r', 'a', 'n', 's', 'l', 'a', 't', 'e'] ++ ('\n' :: ([] ++ (translateEntries o tm ++ T)))))))))) := by
+    have : tm.isEmpty = false := by cases tm with | nil => exact absurd rfl htm | cons _ _ => rfl
+    simp [treesBlockText, translateText, beginTrees, this, R, T]
+  have h1 := pre_word pu ws ['B', 'E', 'G', 'I', 'N'] _ hws kw_BEGIN
+    (stop_space ([] ++ (['T', 'R', 'E', 'E', 'S'] ++ (';' :: (('\n' :: indent8) ++
+        (['T', 'r', 'a', 'n', 's', 'l', 'a', 't', 'e'] ++ ('\n' :: ([] ++ (translateEntries o tm ++ T))))))))).1
+  rw [(stop_space _).2] at h1
+  have h2 := pre_word pu [] ['T', 'R', 'E', 'E', 'S'] _ (by simp) kw_TREES
+    (stop_semi (('\n' :: indent8) ++ (['T', 'r', 'a', 'n', 's', 'l', 'a', 't', 'e'] ++ ('\n' :: ([] ++ (translateEntries o tm ++ T)))))).1
+  rw [(stop_semi _).2] at h2
+  have h3 := pre_punct pu [] ';' (('\n' :: indent8) ++ (['T', 'r', 'a', 'n', 's', 'l', 'a', 't', 'e'] ++ ('\n' :: ([] ++ (translateEntries o tm ++ T)))))
+    (by simp) (by decide)
+  rw [List.nil_append] at h3
+  have h4 := pre_word pu ('\n' :: indent8) ['T', 'r', 'a', 'n', 's', 'l', 'a', 't', 'e'] _ (by decide) kw_Translate
+    (stop_nl ([] ++ (translateEntries o tm ++ T))).1
+  rw [(stop_nl _).2] at h4
+  have hws13 : ∀ c ∈ ws' ++ (indent8 ++ [' ', ' ', ' ', ' ', ' ']), isUncap c = true := by
+    intro c hcm
+    rcases List.mem_append.mp hcm with h | h
+    · exact hws' c h
+    · exact ws13 c h
+  have h5 := pre_punct pu (ws' ++ (indent8 ++ [' ', ' ', ' ', ' ', ' '])) ';' (['\n'] ++ R) hws13 (by decide)
+  have e5 : ws' ++ T = (ws' ++ (indent8 ++ [' ', ' ', ' ', ' ', ' '])) ++ ';' :: (['\n'] ++ R) := by simp [T]
+  rw [e5] at hpre
+  have hall := ((((h1.trans h2).trans h3).trans h4).trans hpre).trans h5
+  refine ⟨es, gs, hes, hgs, ?_⟩
+  rw [etext, hall.final hlines]
+  rfl
+
+/-- the block with a TRANSLATE statement runs to the ORIGINAL trees and the table -/
+theorem block_run_translate (o : WOpts) (ro : ROpts) (hc : Consistent o.ps o.uu ro.pu)
+    (ho : o.sltl = false ∧ o.slnl = true ∧ o.sitl = false ∧ o.sinl = false ∧ o.sel = false)
+    (tm : List (Str × Str)) (htm : tm ≠ []) (ns : List Str) (hk : DistinctCI ro.cf (tm.map (·.1)))
+    (hent : ∀ p ∈ tm, PlainWord p.1 ∧ (p.2 ≠ [] ∧ ∀ c ∈ p.2, labelChar c = true) ∧ p.2 ∈ ns) (hU : CaseCons ro.cf ns)
+    (trees : List (Str × WT))
+    (hok : ∀ x ∈ trees, (x.1 ≠ [] ∧ ∀ c ∈ x.1, labelChar c = true) ∧ OkT o (retag (tokenOf tm) x.2.2.2) ∧
+      WritesSomething o (retag (tokenOf tm) x.2.2.2) ∧ (∀ w, x.2.2.1 = some w → WeightOk w) ∧ Carried ro x.2.2.2 ∧
+      (taxaOf ro (toRT o x.2.2.2)).Nodup ∧
+      (∀ s, (s ∈ taxLabels x.2.2.2 ∨ s ∈ taxaOf ro (toRT o x.2.2.2)) → s ∈ tm.map (·.2))) :
+    BlockRun ro ns (treesBlockText o tm (trees.map (fun x => (x.1, retagWT (tokenOf tm) x.2))))
+      (trees.map (fun x => (x.1, ⟨(treeComments ro (comments o x.2.1 x.2.2.1) none none).1,
+                                  (treeComments ro (comments o x.2.1 x.2.2.1) none none).2, x.2.2.2⟩)))
+      ⟨tm, ns, true⟩ := by
+  intro ws hws
+  have hkne : ∀ p ∈ tm, p.1 ≠ [] := fun p hp => (hent p hp).1.1
+  have hrt : ∀ x ∈ trees, decodeWith (resolve ro.cf tm) ro (toRT o (retag (tokenOf tm) x.2.2.2)) = x.2.2.2 ∧
+      taxaOf ro (toRT o (retag (tokenOf tm) x.2.2.2)) = (taxaOf ro (toRT o x.2.2.2)).map (tokenOf tm) := by
     intro x hx
-    obtain ⟨_, _, hws, _, hnd, hin⟩ := hok x hx
-    refine ⟨hws, (taxaOf ro (toRT o x.2.2.2)).reverse ++ [], ?_⟩
-    have := assign_known ro ns hU (toRT o x.2.2.2) ⟨[], ns, true⟩ [] rfl (Or.inr (fun z hz => hz)) (fun z hz => hz) hin (by simpa using hnd)
-    rw [this, addAll_of_mem _ _ hin]
-  unfold nexusBlock
-  rw [htoks]
-  have uB : ucase ['B', 'E', 'G', 'I', 'N'] = ['B', 'E', 'G', 'I', 'N'] := by decide
-  have uT : ucase ['T', 'R', 'E', 'E', 'S'] = ['T', 'R', 'E', 'E', 'S'] := by decide
-  simp only [Bool.not_true, Bool.false_eq_true, if_false, uB, uT, beq_self_eq_true, Bool.and_self, if_true]
-  have hskip : skipToSemi (⟨[';'], false, []⟩ :: (gs.flatten ++ [⟨['E', 'N', 'D'], false, []⟩, ⟨[';'], false, []⟩])) =
-      gs.flatten ++ [⟨['E', 'N', 'D'], false, []⟩, ⟨[';'], false, []⟩] := by simp [skipToSemi]
-  rw [hskip]
-  have uE : ucase ['E', 'N', 'D'] = ['E', 'N', 'D'] := by decide
-  cases trees with
-  | nil =>
-    cases gs with
-    | cons g gs' => exact absurd hgs (by simp [LineGroups])
-    | nil => simp [nexusBlockLoop, uE]
-  | cons x xs =>
-    cases gs with
-    | nil => exact absurd hgs (by simp [LineGroups])
-    | cons g gs' =>
-      obtain ⟨⟨kw, nm, eq, first, rest, hg, hkw, hrestg⟩, hgs'⟩ := hgs
-      subst hg
-      have hts := tree_stmts o ro ⟨[], ns, true⟩ [⟨['E', 'N', 'D'], false, []⟩, ⟨[';'], false, []⟩]
-        ⟨by simp [skipSemis, kind], by intro t r h; cases h; rw [uE]; decide⟩ (by simp)
-        (x :: xs) ((kw :: nm :: eq :: first :: rest) :: gs') ⟨⟨kw, nm, eq, first, rest, rfl, hkw, hrestg⟩, hgs'⟩ hassign
-        kw (nm :: eq :: first :: rest) gs' rfl (by simp) []
-      have hu : ucase kw.text = ['T', 'R', 'E', 'E'] := by rw [hkw]; exact ucase_TREE
-      have hfl : ((kw :: nm :: eq :: first :: rest) :: gs').flatten ++ [⟨['E', 'N', 'D'], false, []⟩, ⟨[';'], false, []⟩] =
-          kw :: ((nm :: eq :: first :: rest) ++ (gs'.flatten ++ [(⟨['E', 'N', 'D'], false, []⟩ : TokE), ⟨[';'], false, []⟩])) := by simp
-      rw [hfl]
-      simp only [List.length_cons, nexusBlockLoop, hu]
-      have d1 : ((['T', 'R', 'E', 'E'] : Str) == ['E', 'N', 'D']) = false := by decide
-      have d2 : ((['T', 'R', 'E', 'E'] : Str) == ['E', 'N', 'D', 'B', 'L', 'O', 'C', 'K']) = false := by decide
-      have d3 : ((['T', 'R', 'E', 'E'] : Str) == ['T', 'R', 'A', 'N', 'S', 'L', 'A', 'T', 'E']) = false := by decide
-      simp only [d1, d2, d3, Bool.or_self, Bool.false_eq_true, if_false, beq_self_eq_true, if_true]
-      have hll := linegroups_len o xs gs' hgs'
-      rw [hts _ (by simp only [List.length_append, List.length_cons]; omega)]
-      simp
+    obtain ⟨_, _, _, _, hcar, _, hin⟩ := hok x hx
+    exact retag_tree o ro ho (tokenOf tm) (resolve ro.cf tm) x.2.2.2 hcar
+      (fun s hs => ⟨tokenOf_ne_nil tm hkne s (hin s (Or.inl hs)), (tokenOf_spec ro.cf tm hk s (hin s (Or.inl hs))).1⟩)
+  let trees' := trees.map (fun x => (x.1, retagWT (tokenOf tm) x.2))
+  obtain ⟨es, gs, hes, hgs, htoks⟩ := block_tokens_translate o ro.pu hc tm htm
+    (fun p hp => ⟨(hent p hp).1, (hent p hp).2.1.1, (hent p hp).2.1.2⟩) trees'
+    (by
+      intro x' hx'
+      obtain ⟨x, hx, rfl⟩ := List.mem_map.mp hx'
+      obtain ⟨h1, h2, h3, h4, _⟩ := hok x hx
+      exact ⟨h1, h2, h3, h4⟩) ws hws
+  -- every statement leaves the mapper ⟨tm, ns, true⟩ unchanged and yields the original tree
+  have hassign : ∀ x' ∈ trees', isBlank (toRT o x'.2.2.2) = false ∧
+      ∃ seen, assign ro (toRT o x'.2.2.2) ⟨⟨tm, ns, true⟩, []⟩ =
+        some (decodeWith (resolve ro.cf tm) ro (toRT o x'.2.2.2), ⟨⟨tm, ns, true⟩, seen⟩) := by
+    intro x' hx'
+    obtain ⟨x, hx, rfl⟩ := List.mem_map.mp hx'
+    obtain ⟨_, _, hws, _, _, hnd, hin⟩ := hok x hx
+    refine ⟨hws, _, assign_resolve ro (resolve ro.cf tm) (toRT o (retag (tokenOf tm) x.2.2.2)) ⟨tm, ns, true⟩ [] ?_ ?_⟩
+    · intro w hw
+      rw [(hrt x hx).2] at hw
+      obtain ⟨s, hs, rfl⟩ := List.mem_map.mp hw
+      exact lookup_token ro.cf ⟨tm, ns, true⟩ _ (tokenOf_spec ro.cf tm hk s (hin s (Or.inr hs))).2
+    · simp only [List.reverse_nil, List.nil_append]
+      rw [(hrt x hx).2, List.map_map]
+      have : (taxaOf ro (toRT o x.2.2.2)).map (resolve ro.cf tm ∘ tokenOf tm) = (taxaOf ro (toRT o x.2.2.2)).map id := by
+        apply List.map_congr_left
+        intro s hs
+        exact (tokenOf_spec ro.cf tm hk s (hin s (Or.inr hs))).1
+      rw [this, List.map_id]
+      exact hnd
+  have hloop := fun f => block_loop_trees o ro ⟨tm, ns, true⟩ (fun x' => decodeWith (resolve ro.cf tm) ro (toRT o x'.2.2.2))
+    trees' gs hgs hassign f
+  have htr := translate_reads ro.cf ns hU ⟨[';'], false, []⟩ rfl
+    (gs.flatten ++ [⟨['E', 'N', 'D'], false, []⟩, ⟨[';'], false, []⟩]) tm htm
+    (fun p hp => ⟨by
+      intro h
+      have := (hent p hp).1.2.1 ';' (by rw [h]; simp)
+      revert this; decide, (hent p hp).2.2⟩) es hes []
+  refine ⟨⟨['T', 'r', 'a', 'n', 's', 'l', 'a', 't', 'e'], false, []⟩ ::
+    (es ++ ⟨[';'], false, []⟩ :: (gs.flatten ++ [⟨['E', 'N', 'D'], false, []⟩, ⟨[';'], false, []⟩])), ?_, ?_⟩
+  · rw [htoks]
+    simp
+  · intro f
+    have uTr : ucase ['T', 'r', 'a', 'n', 's', 'l', 'a', 't', 'e'] = ['T', 'R', 'A', 'N', 'S', 'L', 'A', 'T', 'E'] := by decide
+    have d1 : ((['T', 'R', 'A', 'N', 'S', 'L', 'A', 'T', 'E'] : Str) == ['E', 'N', 'D']) = false := by decide
+    have d2 : ((['T', 'R', 'A', 'N', 'S', 'L', 'A', 'T', 'E'] : Str) == ['E', 'N', 'D', 'B', 'L', 'O', 'C', 'K']) = false := by decide
+    rw [show f + 2 = (f + 1) + 1 by omega, nexusBlockLoop]
+    simp only [uTr, d1, d2, Bool.or_self, Bool.false_eq_true, if_false, beq_self_eq_true, if_true]
+    rw [htr _ (by
+      have : tm.length ≤ es.length := by
+        have h := congrArg List.length hes
+        rw [List.length_map] at h
+        rw [h]
+        exact entryTexts_len tm
+      simp only [List.length_append, List.length_cons]; omega)]
+    simp only [List.nil_append]
+    rw [hloop]
+    congr 2
+    simp only [trees', List.map_map]
+    apply List.map_congr_left
+    intro x hx
+    simp only [Function.comp, namedWith, retagWT]
+    rw [(hrt x hx).1]
+end Aux
+
+open Aux in
+/-- NEXUS TREES block WITH a TRANSLATE statement, END TO END on the text: the writer's block for the table `tm`
+    (`BEGIN TREES;`, `Translate` with one `token label` entry per line, `;`, then the `TREE name = statement` lines in
+    which every taxon label is replaced by its token, `END;` — `treesBlockText`, compared with the library's block as token
+    streams on every run) is read by the block reader `nexusBlock` (`_parse_trees_block`, `_parse_translate_statement`,
+    `_parse_tree_statement`) back into the table itself and the ORIGINAL trees, each under its name with its rooting and
+    weight; the namespace is unchanged.  This is the TRANSLATE statement text that `nexus_translate_roundtrip` left out.
+    Hypotheses: consistent options, default label options; translation tokens are plain words (digit strings in the
+    default table) pairwise different up to the case folding; every table label is an admissible label and a member of
+    `ns`, which has no two case variants of a label; names admissible; the token trees are `OkT` and write something;
+    trees `Carried`, no label twice per tree, every taxon label has a table entry. -/
+theorem nexus_trees_translate_roundtrip (o : WOpts) (ro : ROpts) (hc : Consistent o.ps o.uu ro.pu)
+    (ho : o.sltl = false ∧ o.slnl = true ∧ o.sitl = false ∧ o.sinl = false ∧ o.sel = false)
+    (tm : List (Str × Str)) (htm : tm ≠ []) (ns : List Str) (hk : DistinctCI ro.cf (tm.map (·.1)))
+    (hent : ∀ p ∈ tm, PlainWord p.1 ∧ (p.2 ≠ [] ∧ ∀ c ∈ p.2, labelChar c = true) ∧ p.2 ∈ ns) (hU : CaseCons ro.cf ns)
+    (trees : List (Str × WT))
+    (hok : ∀ x ∈ trees, (x.1 ≠ [] ∧ ∀ c ∈ x.1, labelChar c = true) ∧ OkT o (retag (tokenOf tm) x.2.2.2) ∧
+      WritesSomething o (retag (tokenOf tm) x.2.2.2) ∧ (∀ w, x.2.2.1 = some w → WeightOk w) ∧ Carried ro x.2.2.2 ∧
+      (taxaOf ro (toRT o x.2.2.2)).Nodup ∧
+      (∀ s, (s ∈ taxLabels x.2.2.2 ∨ s ∈ taxaOf ro (toRT o x.2.2.2)) → s ∈ tm.map (·.2))) :
+    nexusBlock ro ns (treesBlockText o tm (trees.map (fun x => (x.1, retagWT (tokenOf tm) x.2)))) =
+      some (trees.map (fun x => (x.1, ⟨(treeComments ro (comments o x.2.1 x.2.2.1) none none).1,
+                                       (treeComments ro (comments o x.2.1 x.2.2.1) none none).2, x.2.2.2⟩)),
+            ⟨tm, ns, true⟩) :=
+  nexusBlock_of_run ro ns _ _ _ (block_run_translate o ro hc ho tm htm ns hk hent hU trees hok)
+
+/-! ### the whole NEXUS document, text to trees -/
+
+open Aux in
+/-- NEXUS DOCUMENT END TO END (no TRANSLATE): the text the model writer produces for one tree list over the namespace `ns`
+    (`nexusDocText`: `#NEXUS`, `BEGIN TAXA; DIMENSIONS NTAX=n; TAXLABELS … ; END;`, `BEGIN TREES; TREE name = … END;` —
+    compared with `TreeList.as_string("nexus")` as token streams on every run) read by the model's document reader
+    `nexusDoc` (`_parse_nexus_stream`, `_parse_taxa_block`, `_parse_dimensions_statement`, `_parse_taxlabels_statement`,
+    `_parse_trees_block`; compared with `TreeList.get(schema="nexus")` on every run) yields the namespace `ns` itself — same
+    labels, same ORDER, whether it is built from the TAXLABELS list (`att = none`) or handed in by the caller
+    (`att = some ns`) — and every tree under its name with the structure, rooting and weight of its statement.
+    Hypotheses: consistent options; labels admissible and pairwise distinct up to the case folding; names admissible;
+    trees `OkT`, write something, weights number texts, no label twice per tree, every taxon label in `ns`. -/
+theorem nexus_document_roundtrip (o : WOpts) (ro : ROpts) (hc : Consistent o.ps o.uu ro.pu) (ns : List Str)
+    (hadm : ∀ l ∈ ns, l ≠ [] ∧ ∀ c ∈ l, labelChar c = true) (hd : DistinctCI ro.cf ns)
+    (att : Option (List Str)) (hatt : att = none ∨ att = some ns) (trees : List (Str × WT))
+    (hok : ∀ x ∈ trees, (x.1 ≠ [] ∧ ∀ c ∈ x.1, labelChar c = true) ∧ OkT o x.2.2.2 ∧ WritesSomething o x.2.2.2 ∧
+      (∀ w, x.2.2.1 = some w → WeightOk w) ∧ (taxaOf ro (toRT o x.2.2.2)).Nodup ∧ ∀ z ∈ taxaOf ro (toRT o x.2.2.2), z ∈ ns) :
+    nexusDoc ro att (nexusDocText o ns [] trees) = some ⟨ns, [], trees.map (namedResult o ro)⟩ :=
+  doc_of_run o.ps o.uu ro hc ns hadm hd att hatt _ _ _ (block_run_plain o ro hc ns trees hok (caseCons_of_distinct ro.cf ns hd))
+
+open Aux in
+/-- NEXUS DOCUMENT END TO END WITH a TRANSLATE statement (`translate_tree_taxa`): as `nexus_document_roundtrip`, the TREES
+    block carrying the table `tm` (one entry per namespace member, in namespace order, as `_set_and_write_translate_block`
+    writes it) and the statements written with tokens; the ORIGINAL trees come back, the namespace is `ns` in order, the
+    table read is the table written.  Hypotheses as in `nexus_trees_translate_roundtrip`, plus: the table's labels are
+    exactly the namespace, admissible and pairwise distinct up to the case folding. -/
+theorem nexus_document_translate_roundtrip (o : WOpts) (ro : ROpts) (hc : Consistent o.ps o.uu ro.pu)
+    (ho : o.sltl = false ∧ o.slnl = true ∧ o.sitl = false ∧ o.sinl = false ∧ o.sel = false)
+    (tm : List (Str × Str)) (htm : tm ≠ []) (hk : DistinctCI ro.cf (tm.map (·.1)))
+    (hent : ∀ p ∈ tm, PlainWord p.1 ∧ (p.2 ≠ [] ∧ ∀ c ∈ p.2, labelChar c = true))
+    (hd : DistinctCI ro.cf (tm.map (·.2)))
+    (att : Option (List Str)) (hatt : att = none ∨ att = some (tm.map (·.2))) (trees : List (Str × WT))
+    (hok : ∀ x ∈ trees, (x.1 ≠ [] ∧ ∀ c ∈ x.1, labelChar c = true) ∧ OkT o (retag (tokenOf tm) x.2.2.2) ∧
+      WritesSomething o (retag (tokenOf tm) x.2.2.2) ∧ (∀ w, x.2.2.1 = some w → WeightOk w) ∧ Carried ro x.2.2.2 ∧
+      (taxaOf ro (toRT o x.2.2.2)).Nodup ∧
+      (∀ s, (s ∈ taxLabels x.2.2.2 ∨ s ∈ taxaOf ro (toRT o x.2.2.2)) → s ∈ tm.map (·.2))) :
+    nexusDoc ro att (nexusDocText o (tm.map (·.2)) tm (trees.map (fun x => (x.1, retagWT (tokenOf tm) x.2)))) =
+      some ⟨tm.map (·.2), tm,
+        trees.map (fun x => (x.1, ⟨(treeComments ro (comments o x.2.1 x.2.2.1) none none).1,
+                                   (treeComments ro (comments o x.2.1 x.2.2.1) none none).2, x.2.2.2⟩))⟩ := by
+  have hadm : ∀ l ∈ tm.map (·.2), l ≠ [] ∧ ∀ c ∈ l, labelChar c = true := by
+    intro l hl
+    obtain ⟨p, hp, rfl⟩ := List.mem_map.mp hl
+    exact (hent p hp).2
+  have hrun := block_run_translate o ro hc ho tm htm (tm.map (·.2)) hk
+    (fun p hp => ⟨(hent p hp).1, (hent p hp).2, List.mem_map_of_mem hp⟩) (caseCons_of_distinct ro.cf _ hd) trees hok
+  have h := doc_of_run o.ps o.uu ro hc (tm.map (·.2)) hadm hd att hatt _ _ _ hrun
+  unfold nexusDocText
+  exact h
+
+/-- the default TRANSLATE table of the model writer (`translate_tree_taxa=True`; token = ACCESSION index + 1, entries in
+    MEMBER order — the two orders differ after `sort()` / `reverse()` / a removal): its labels are the namespace in member
+    order (what `nexus_document_translate_roundtrip` then gives back as the namespace read) and its tokens are plain
+    words, whatever the accession indices are — so the hypothesis on tokens of the TRANSLATE theorems holds for it -/
+theorem default_translate_table (ns : List (Str × Nat)) :
+    (defaultTable ns).map (·.2) = ns.map (·.1) ∧ ∀ p ∈ defaultTable ns, Aux.PlainWord p.1 := Aux.defaultTable_spec ns
+
+example : defaultTable [("a".toList, 2), ("b".toList, 0), ("c".toList, 4)] =
+    [("3".toList, "a".toList), ("1".toList, "b".toList), ("5".toList, "c".toList)] := by decide
+
+/-! ### NeXML: the writer model's id bookkeeping -/
+
+/-- NeXML (clause d), writer side, on the model the driver runs (`nexml-write`, `nexml-rt`; compared with the element
+    structure of the library's text on every run): one tree takes one id for itself, then one `node` element per node and
+    one `edge` / `rootedge` element per node, and moves the id counter on by exactly `1 + 2·size`; the first `node` element
+    is the seed with the id right after the tree's, carrying `root="true"` exactly for a rooted tree (an undefined rooting
+    state is written like unrooted: the forced normalisation); the first edge element is the `rootedge` (no source) into
+    the seed.  `_partial`: that the reader model applied to the written structure returns the trees (`nxRead ∘ nxWrite`) is
+    NOT proved — it is compared on every generated case (op `nexml-rt` against what the library re-reads). -/
+theorem nexml_write_shape_partial (ns : List Str) (c : Nat) (x : XW) :
+    (nxWriteTree ns c x).1.id = c ∧
+    (nxWriteTree ns c x).1.nodes.length = Aux.sizeNT x.2.2 ∧
+    (nxWriteTree ns c x).1.edges.length = Aux.sizeNT x.2.2 ∧
+    (nxWriteTree ns c x).2 = c + 1 + 2 * Aux.sizeNT x.2.2 ∧
+    (∃ nd rest, (nxWriteTree ns c x).1.nodes = nd :: rest ∧ nd.id = c + 1 ∧ nd.root = (x.2.1 == 2)) ∧
+    (∃ e rest, (nxWriteTree ns c x).1.edges = e :: rest ∧ e.source = none ∧ e.target = c + 1) := by
+  obtain ⟨nm, r, t⟩ := x
+  have hn := Aux.number_next t (c + 1)
+  have hl1 := Aux.nodes_len (fun l => (findIdx l ns 0).map (· + 1)) (if r == 2 then some (c + 1) else none) t (c + 1)
+  have hl2 := Aux.edges_len ((number t (c + 1)).2 - (c + 1)) none t (c + 1)
+  refine ⟨rfl, hl1, hl2, ?_, ?_, ?_⟩
+  · simp only [nxWriteTree, hn]; omega
+  · cases t with
+    | node tx lb ln cs =>
+      refine ⟨_, _, rfl, rfl, ?_⟩
+      cases hr : (r == 2) <;> simp [hr]
+  · cases t with
+    | node tx lb ln cs => exact ⟨_, _, rfl, rfl, rfl⟩
+
+example : (nxWriteTree ["A".toList, "B".toList] 4 (some "t".toList, 2,
+      .node none (some "x".toList) none [.node (some "A".toList) none (some "1.5".toList) [], .node (some "B".toList) none none []])).2 =
+    4 + 1 + 2 * 3 :=
+  (nexml_write_shape_partial _ _ _).2.2.2.1
 
 /-! ### non-vacuity: the hypotheses are satisfiable, on trees with awkward labels and anonymous leaves -/
 
@@ -953,6 +1159,33 @@ example : parseText {} ⟨exTable, ["2".toList, "1".toList, "3".toList], true⟩
   rw [h]
   simp [exDigits, comments, treeComments, isRootingComment, rootingState, strip, stripL, isSpace]
 
+/-- `nexus_trees_translate_roundtrip` on the digit-label tree: the block text with `Translate 1 2, 2 1, 3 3;` and the
+    statement written with tokens is read back as the original tree under its name, the table is the one written -/
+example : nexusBlock {} ["2".toList, "1".toList, "3".toList]
+      (treesBlockText {} exTable ([("t 1".toList, exDigits)].map (fun x => (x.1, retagWT (tokenOf exTable) x.2)))) =
+    some ([("t 1".toList, ⟨2, none, exDigits.2.2⟩)], ⟨exTable, ["2".toList, "1".toList, "3".toList], true⟩) := by
+  have h := nexus_trees_translate_roundtrip {} {} (by simp [Consistent]) (by simp) exTable (by simp [exTable])
+    ["2".toList, "1".toList, "3".toList] (by simp [exTable, DistinctCI, lowerWith])
+    (by
+      intro p hp
+      simp [exTable] at hp
+      rcases hp with rfl | rfl | rfl <;>
+        exact ⟨⟨by simp, by decide, by intro c cs h; cases h; decide⟩, ⟨by simp, by decide⟩, by simp⟩)
+    (by simp [CaseCons, lowerWith]) [("t 1".toList, exDigits)]
+    (by
+      intro y hy
+      simp at hy; subst hy
+      refine ⟨⟨by simp, by decide⟩, ?_, ?_, by simp [exDigits], ?_, ?_, ?_⟩
+      · simp [exDigits, exTable, retag, retagL, tokenOf, OkT, OkL, rawTag, joinSp, LenOk]; decide
+      · simp [exDigits, retag, retagL, WritesSomething, Aux.toRT, Aux.toRTL, Aux.isBlank]
+      · simp [exDigits, Carried, Carried.CarriedL]
+      · simp [exDigits, Aux.toRT, Aux.toRTL, taxaOf, taxaOfL, Aux.tagOf, Aux.lenOf, rawTag, joinSp]
+      · intro s hs
+        simp [exDigits, taxLabels, taxLabelsL, Aux.toRT, Aux.toRTL, taxaOf, taxaOfL, Aux.tagOf, Aux.lenOf, rawTag, joinSp] at hs
+        rcases hs with (rfl | rfl | rfl) | (rfl | rfl | rfl) <;> simp [exTable])
+  rw [h]
+  simp [exDigits, comments, treeComments, isRootingComment, rootingState, strip, stripL, isSpace]
+
 /-- `nexus_trees_roundtrip` on a two-tree block, one tree named with a blank and one named `*` (written `'*'`, not the
     default-tree marker), over the namespace of a TAXA block -/
 example : nexusBlock {} ["B".toList, "A".toList, "c_d".toList]
@@ -975,5 +1208,53 @@ example : nexusBlock {} ["B".toList, "A".toList, "c_d".toList]
         · simp [exTree2, Aux.toRT, Aux.toRTL, taxaOf, taxaOfL, Aux.tagOf, Aux.lenOf, rawTag, joinSp]
         · simp [exTree2, Aux.toRT, Aux.toRTL, taxaOf, taxaOfL, Aux.tagOf, Aux.lenOf, rawTag, joinSp])
     (by simp [CaseCons, lowerWith])
+
+/-- `nexus_document_roundtrip` on a whole document: namespace `B, A, c_d` (in that order), two named trees; read into a
+    fresh namespace -/
+example : nexusDoc {} none (nexusDocText {} ["B".toList, "A".toList, "c_d".toList] []
+      [("my tree".toList, exTree1), ("*".toList, exTree2)]) =
+    some ⟨["B".toList, "A".toList, "c_d".toList], [],
+      [("my tree".toList, Aux.resultOf {} {} exTree1), ("*".toList, Aux.resultOf {} {} exTree2)]⟩ :=
+  nexus_document_roundtrip {} {} (by simp [Consistent]) _ (by decide) (by simp [DistinctCI, lowerWith]) none (Or.inl rfl) _
+    (by
+      intro y hy
+      simp at hy
+      rcases hy with rfl | rfl
+      · refine ⟨⟨by simp, by decide⟩, ?_, ?_, by simp [exTree1], ?_, ?_⟩
+        · simp [exTree1, OkT, OkL, rawTag, joinSp, LenOk]; decide
+        · simp [exTree1, WritesSomething, Aux.toRT, Aux.toRTL, Aux.isBlank]
+        · simp [exTree1, Aux.toRT, Aux.toRTL, taxaOf, taxaOfL, Aux.tagOf, Aux.lenOf, rawTag, joinSp]
+        · simp [exTree1, Aux.toRT, Aux.toRTL, taxaOf, taxaOfL, Aux.tagOf, Aux.lenOf, rawTag, joinSp]
+      · refine ⟨⟨by simp, by decide⟩, ?_, ?_, by simp [exTree2], ?_, ?_⟩
+        · simp [exTree2, OkT, OkL, rawTag, joinSp, LenOk]; decide
+        · simp [exTree2, WritesSomething, Aux.toRT, Aux.toRTL, Aux.isBlank]
+        · simp [exTree2, Aux.toRT, Aux.toRTL, taxaOf, taxaOfL, Aux.tagOf, Aux.lenOf, rawTag, joinSp]
+        · simp [exTree2, Aux.toRT, Aux.toRTL, taxaOf, taxaOfL, Aux.tagOf, Aux.lenOf, rawTag, joinSp])
+
+/-- `nexus_document_translate_roundtrip` on the digit-label tree, read into the caller's namespace `2, 1, 3` -/
+example : nexusDoc {} (some (exTable.map (·.2))) (nexusDocText {} (exTable.map (·.2)) exTable
+      ([("t 1".toList, exDigits)].map (fun x => (x.1, retagWT (tokenOf exTable) x.2)))) =
+    some ⟨exTable.map (·.2), exTable, [("t 1".toList, ⟨2, none, exDigits.2.2⟩)]⟩ := by
+  have h := nexus_document_translate_roundtrip {} {} (by simp [Consistent]) (by simp) exTable (by simp [exTable])
+    (by simp [exTable, DistinctCI, lowerWith])
+    (by
+      intro p hp
+      simp [exTable] at hp
+      rcases hp with rfl | rfl | rfl <;>
+        exact ⟨⟨by simp, by decide, by intro c cs h; cases h; decide⟩, ⟨by simp, by decide⟩⟩)
+    (by simp [exTable, DistinctCI, lowerWith]) (some (exTable.map (·.2))) (Or.inr rfl) [("t 1".toList, exDigits)]
+    (by
+      intro y hy
+      simp at hy; subst hy
+      refine ⟨⟨by simp, by decide⟩, ?_, ?_, by simp [exDigits], ?_, ?_, ?_⟩
+      · simp [exDigits, exTable, retag, retagL, tokenOf, OkT, OkL, rawTag, joinSp, LenOk]; decide
+      · simp [exDigits, retag, retagL, WritesSomething, Aux.toRT, Aux.toRTL, Aux.isBlank]
+      · simp [exDigits, Carried, Carried.CarriedL]
+      · simp [exDigits, Aux.toRT, Aux.toRTL, taxaOf, taxaOfL, Aux.tagOf, Aux.lenOf, rawTag, joinSp]
+      · intro s hs
+        simp [exDigits, taxLabels, taxLabelsL, Aux.toRT, Aux.toRTL, taxaOf, taxaOfL, Aux.tagOf, Aux.lenOf, rawTag, joinSp] at hs
+        rcases hs with (rfl | rfl | rfl) | (rfl | rfl | rfl) <;> simp [exTable])
+  rw [h]
+  simp [exDigits, comments, treeComments, isRootingComment, rootingState, strip, stripL, isSpace]
 
 end DendroModel.C02
